@@ -35,7 +35,7 @@ IntArr(s) == Arr("int", [i \in 1..Len(s) |-> IntV(s[i])])
 StrArr(s) == Arr("string", [i \in 1..Len(s) |-> Str(s[i])])
 
 EnvVals ==
-  [I |-> {IntV(0), IntV(2), IntV(-3)}, J |-> {IntV(1), IntV(5)},
+  [I |-> {IntV(0), IntV(2), IntV(-3)}, J |-> {IntV(1), IntV(5)}, K |-> {IntV(97), IntV(1)},
    I8 |-> {IntK("int8", -128), IntK("int8", 7)}, I16 |-> {IntK("int16", 300)}, I32 |-> {IntK("int32", -70000)},
    I64 |-> {IntK("int64", 2), IntK("int64", -9)},
    U |-> {IntK("uint", 0), IntK("uint", 300)}, U8 |-> {IntK("uint8", 44), IntK("uint8", 255)},
@@ -45,6 +45,7 @@ EnvVals ==
    S |-> {Str(""), Str("abc"), Str("ab")}, T |-> {Str("b"), Str("abc")},
    Xs |-> {Arr("nil[]int", <<>>), IntArr(<<1, 2, 3>>), IntArr(<<-2, 2>>)},
    Ys |-> {IntArr(<<2>>), IntArr(<<1, 2, 3>>)},
+   Big |-> {IntArr([i \in 1..40 |-> 41 - i])},      \* longer than any small-collection threshold, not sorted
    Fs |-> {Arr("float64", <<F64(1, 1), F64(2, 0)>>)},
    Ss |-> {StrArr(<<"a", "abc">>), Arr("nil[]string", <<>>)},
    Anys |-> {Arr("any", <<IntV(1), Str("a"), Nil>>), Arr("any", <<Bool(TRUE)>>)},
@@ -82,6 +83,9 @@ F_Leaves ==
     [] Family = "mixed"  -> Ints({0, 1, 3}) \cup {L(NBool(TRUE), "bool"), L(NStr("ab"), "string"), L(NNil, "nil"), L(NFloat("1.5", 3, 1), "float64"),
                               Mem("I"), Mem("B"), Mem("S"), Mem("Xs"), Mem("F"), Mem("O"), Mem("P"), Mem("M"), Mem("Any")}
     [] Family = "alloc"  -> Ints({0, 1, 3}) \cup {Mem("I"), Mem("J"), Mem("Xs")}
+    [] Family = "calls"  -> Ints({1}) \cup {L(NNil, "nil"), Mem("I"), Mem("P")}
+    [] Family = "inlit"  -> Ints({1, 2}) \cup Strs({"a"}) \cup {Mem("I64"), Mem("F"), Mem("K"), Mem("Big")}
+    [] Family = "cexpr"  -> Ints({1}) \cup Strs({"1", "a"}) \cup {L(NFloat("1.0", 1, 0), "float64"), Mem("I")}
     [] Family = "order"  -> Ints({0, 1, 2}) \cup {Mem("Xs"), Mem("I"), Mem("F"), Mem("S"), Mem("I64")}
     [] Family = "laws"   -> Ints({0, 1, 2, 3}) \cup {Neg1, Mem("Xs"), Mem("Ys"), Mem("I"), Mem("J"), Mem("S"), Mem("Os"), Mem("Anys")}
     [] Family = "ovl"    -> Ints({1, 2}) \cup {L(NFloat("0.5", 1, 1), "float64"), Mem("B"), Mem("I"), Mem("J"), Mem("F"), Mem("Any"), Mem("Xs"), Mem("Anys"), Mem("S"), Mem("I64")}
@@ -105,6 +109,9 @@ F_BinOps ==
     [] Family = "builtin" -> {">", "==", "+", "and", "%", ".."}
     [] Family = "mixed"  -> {"+", "*", "/", "==", "<", "and", "or", "in", ".."}
     [] Family = "alloc"  -> {"..", "+"}
+    [] Family = "calls"  -> {}
+    [] Family = "inlit"  -> {"in", "not in"}
+    [] Family = "cexpr"  -> {"+"}
     [] Family = "order"  -> {"in", "not in", ".."}
     [] Family = "laws"   -> {">", "==", "%", "/", "and", "in", ".."}
     [] Family = "ovl"    -> {"+", "*", "==", ">"}
@@ -118,11 +125,13 @@ F_Props ==
     [] Family = "mixed" -> {Pr("N", FALSE), Pr("Next", TRUE), Pr("a", FALSE)}
     [] Family = "coll" -> {Pr("a", FALSE), Pr("z", FALSE)}
     [] Family = "oversize" -> {Pr("N", TRUE)}
+    [] Family = "calls" -> {Pr("Next", TRUE)}
     [] Family = "laws" -> {Pr("N", FALSE)}
     [] OTHER -> {}
 
 F_Meths ==
   CASE Family = "access" -> {Pr("GetN", FALSE), Pr("Bump", FALSE), Pr("GetN", TRUE)}
+    [] Family = "calls" -> {Pr("Bump", TRUE), Pr("GetN", TRUE)}
     [] OTHER -> {}
 
 F_Funcs ==
@@ -133,6 +142,8 @@ F_Funcs ==
     [] Family = "mixed"  -> {"Id", "Add", "Half"}
     [] Family = "order"  -> {"Id", "Twice"}
     [] Family = "ovl"    -> {"Id", "Half"}
+    [] Family = "calls"  -> {"Pair", "Tup", "VarI"}
+    [] Family = "cexpr"  -> {"AnyId", "Var", "Cat", "Id"}
     [] OTHER -> {}
 
 F_Builtins ==
@@ -144,13 +155,14 @@ F_Builtins ==
     [] Family = "ovl" -> {"map", "filter", "all"}
     [] OTHER -> {}
 
-F_UseLen  == Family \in {"string", "coll", "builtin", "mixed", "alloc", "oversize"}
+F_UseLen  == Family \in {"string", "coll", "builtin", "mixed", "alloc", "oversize", "inlit"}
 F_UseCond == Family \in {"logic", "mixed", "builtin", "oversize", "ovl", "ovlb"}
-F_UseIdx  == Family \in {"coll", "access", "string", "mixed", "builtin", "ovl"}
+F_UseIdx  == Family \in {"coll", "access", "string", "mixed", "builtin", "ovl", "calls"}
 F_SliceShapes == CASE Family \in {"coll", "string"} -> {"ft", "f", "t", "n"} [] Family = "mixed" -> {"f", "ft"}
                    [] Family = "laws" -> {"f"} [] Family = "ovl" -> {"f"} [] Family = "ovlb" -> {"f", "t"}
                    [] Family = "order" -> {"ft", "f", "t"} [] OTHER -> {}
-F_ArrLens == CASE Family \in {"coll", "mixed", "alloc"} -> {0, 1, 2} [] Family \in {"ovl", "ovlb"} -> {1} [] Family = "builtin" -> {2} [] OTHER -> {}
+F_ArrLens == CASE Family \in {"coll", "mixed", "alloc"} -> {0, 1, 2} [] Family \in {"ovl", "ovlb"} -> {1} [] Family \in {"builtin", "calls", "cexpr"} -> {2}
+               [] Family = "inlit" -> {1, 3} [] OTHER -> {}
 F_MapLens == CASE Family = "coll" -> {0, 1, 2} [] Family \in {"mixed", "alloc", "ovl"} -> {1} [] OTHER -> {}
 F_ElemLeaves == Family \in {"builtin", "mixed", "alloc", "oversize", "laws", "ovl"}
 F_OrderGuard == Family # "order"
@@ -186,6 +198,7 @@ Spec == Init /\ [][Next]_gvars
 (* emitted next to the reference outcome when the two differ, so that a      *)
 (* failing real execution is attributed to a known finding mechanically.     *)
 F_Devs == CASE Family \in {"coll", "mixed"} -> {"Dev_InArrayStringUntyped", "Dev_SliceToBeforeFrom"}
+            [] Family = "inlit" -> {"Dev_InArrayStringUntyped"}
             [] Family = "string" -> {"Dev_SliceToBeforeFrom"}
             [] Family = "order" -> {"Dev_SliceToBeforeFrom", "Dev_InRangeRewrite"}
             [] Family = "alloc" -> {"Dev_RangeSizeSigned"}
@@ -231,6 +244,16 @@ LawPairs(t) ==
    THEN {<<"slicing partitions", NBin("+", NLen(NSlice(t.x, NNone, t.from)), NLen(t)), NLen(t.x)>>}
    ELSE {})
 
+(* every identity also holds where its two sides sit inside a larger           *)
+(* expression: as a later element of an array literal, and as the body of an   *)
+(* enclosing closure (so an instruction sequence that leaves a stray operand    *)
+(* below its result, invisible at the top level, is observed)                   *)
+LawInstances(t) ==
+  LET base == LawPairs(t)
+  IN base
+     \cup {<<lw[1] \o " (as an array element)", NArr(<<NInt(7), lw[2]>>), NArr(<<NInt(7), lw[3]>>)>> : lw \in base}
+     \cup {<<lw[1] \o " (inside a closure)", NBi("map", NId("Ys"), lw[2]), NBi("map", NId("Ys"), lw[3])>> : lw \in base}
+
 LawRun(a, b, asg) ==
   LET rho == EnvOf(asg)
       ea == Outcome(a, rho, DefaultBudget, {})
@@ -247,10 +270,10 @@ LawCase(lw) == [law |-> lw[1], src |-> Src(lw[2]), src2 |-> Src(lw[3]), n |-> n,
 (* both sides succeed with the same value, or the left side fails only where *)
 (* the right side fails too or the failing operand is not evaluated by it    *)
 LawsHold == Complete =>
-  \A lw \in LawPairs(Tree) : \A r \in LawCase(lw).runs :
+  \A lw \in LawInstances(Tree) : \A r \in LawCase(lw).runs :
      (r.exp.ok /\ r.exp2.ok) => r.exp.v = r.exp2.v
 
-EmitLaws == (Complete /\ EmitMode = "laws") => \A lw \in LawPairs(Tree) : PrintT(ToJson(LawCase(lw)))
+EmitLaws == (Complete /\ EmitMode = "laws") => \A lw \in LawInstances(Tree) : PrintT(ToJson(LawCase(lw)))
 
 (* C17: with `+` mapped to Add, compiling Src(Tree) must behave as the tree  *)
 (* in which every int + int is the call Add(l, r) (Types!Overload): the call  *)
@@ -259,7 +282,28 @@ OvlTree == Overload(Tree, "")
 OvlCase == [src |-> Src(Tree), osrc |-> Src(OvlTree), n |-> n, overloaded |-> OvlTree # Tree,
             cdz |-> HasConstDivZero(OvlTree), cbp |-> FALSE, runs |-> Runs(OvlTree)]
 OvlTyped == Complete => TypeOf(Tree, "") = TreeTy
-EmitOvl == (Complete /\ EmitMode = "ovl") => PrintT(ToJson(OvlCase))
+(* the same source compiled against another environment in which the function *)
+(* named Add takes float64 parameters: there float + float is the call         *)
+OvlTreeF == OverloadF(Tree, "")
+OvlCaseF == [src |-> Src(Tree), osrc |-> Src(OvlTreeF), n |-> n, overloaded |-> OvlTreeF # Tree, alt |-> TRUE,
+             cdz |-> HasConstDivZero(OvlTreeF), cbp |-> FALSE, runs |-> Runs(OvlTreeF)]
+(* Generator scope (C17): the checker retypes the integer literals inside an   *)
+(* arithmetic argument to the parameter type (catalogued Dev_ArgRetypeArithmetic, *)
+(* C03's subject), which changes the operand types of a `+` below it; such      *)
+(* sources - an arithmetic-shaped argument containing both a `+` and an integer *)
+(* literal - are outside the families of this property.                         *)
+RECURSIVE HasPlus(_), HasIntLit(_), ArgRetypes(_)
+HasPlus(t) == (t.k = "bin" /\ t.op = "+") \/ \E i \in 1..Len(Kids(t)) : HasPlus(Kids(t)[i])
+HasIntLit(t) == t.k = "int" \/ \E i \in 1..Len(Kids(t)) : HasIntLit(Kids(t)[i])
+ArithShaped(t) == (t.k = "bin" /\ t.op \in {"+", "-", "*", "/"}) \/ (t.k = "un" /\ t.op \in {"+", "-"})
+ArgRetypes(t) == (t.k \in {"call", "meth"} /\ \E i \in 1..Len(t.args) :
+                     ArithShaped(t.args[i]) /\ HasPlus(t.args[i]) /\ HasIntLit(t.args[i]))
+                 \/ \E i \in 1..Len(Kids(t)) : ArgRetypes(Kids(t)[i])
+
+(* (a map environment types its members by their values: the dynamically typed *)
+(* member Any has no static type there, so sources mentioning it are left out) *)
+EmitOvl == (Complete /\ EmitMode = "ovl" /\ ~ArgRetypes(Tree)) =>
+             PrintT(ToJson(OvlCase)) /\ ("Any" \in Mentions(Tree) \/ PrintT(ToJson(OvlCaseF)))
 
 (* C10: the traversal the documentation promises for the parser's tree of    *)
 (* Src(Tree), and the text whose compilation the patching visitor must equal *)
